@@ -32,7 +32,7 @@ Proof. destruct k; reflexivity. Qed.
 
 (* the kind column of the arena *)
 Lemma arena_kind d t id par pv s :
-  Arena d t -> In (id, par, pv, s) (table' t) ->
+  Arena' d t -> In (id, par, pv, s) (table' t) ->
   exists nd, get_node d id = Some nd /\ kind_of (nd_kind nd) = tkind s.
 Proof.
   intros HA Hin. pose proof (arena_len _ _ HA) as Hlen. destruct HA as [HA _].
@@ -47,14 +47,14 @@ Proof.
 Qed.
 
 Lemma table_get d t id par s :
-  Arena d t -> In (id, par, s) (table t) -> exists nd, get_node d id = Some nd.
+  Arena' d t -> In (id, par, s) (table t) -> exists nd, get_node d id = Some nd.
 Proof.
   intros HA Hin. destruct (in_table_table'' _ _ _ _ Hin) as [pv Hin'].
   destruct (arena_kind _ _ _ _ _ _ HA Hin') as (nd & Hg & _). eauto.
 Qed.
 
 Lemma node_is_element_spec d t i pi si :
-  Arena d t -> In (i, pi, si) (table t) -> node_is_element d i = Ok (is_elem_id t i).
+  Arena' d t -> In (i, pi, si) (table t) -> node_is_element d i = Ok (is_elem_id t i).
 Proof.
   intros HA Hin. destruct (in_table_table'' _ _ _ _ Hin) as [pv Hin'].
   destruct (arena_kind _ _ _ _ _ _ HA Hin') as (nd & Hg & Hk).
@@ -67,7 +67,7 @@ Qed.
 Definition in_table (t : tree) (i : N) : Prop := exists pi si, In (i, pi, si) (table t).
 
 Lemma find_element_spec d t l :
-  Arena d t -> (forall i, In i l -> in_table t i) ->
+  Arena' d t -> (forall i, In i l -> in_table t i) ->
   find_element d l = Ok (first_elem t l).
 Proof.
   intros HA. induction l as [|a l IH]; intros Hl; [reflexivity|].
@@ -79,7 +79,7 @@ Qed.
 
 (* the lists the variants range over consist of table ids *)
 Lemma children_in_table d t id par s :
-  Arena d t -> In (id, par, s) (table t) ->
+  Arena' d t -> In (id, par, s) (table t) ->
   forall i, In i (child_ids (id + 1) (tchildren s)) -> in_table t i.
 Proof.
   intros HA Hin i Hi. destruct (child_row d t id par s i HA Hin Hi) as (sx & Hrow & _).
@@ -100,7 +100,7 @@ Proof.
 Qed.
 
 Lemma siblings_in_table d t id par s :
-  Arena d t -> In (id, par, s) (table t) ->
+  Arena' d t -> In (id, par, s) (table t) ->
   (forall i, In i (before N.eqb id (sibling_ids t id par)) -> in_table t i) /\
   (forall i, In i (after N.eqb id (sibling_ids t id par)) -> in_table t i) /\
   ~ In id (before N.eqb id (sibling_ids t id par)) /\
@@ -123,12 +123,12 @@ Qed.
 
 (* ------------------------------------------------------------------ *)
 (* 1. has_siblings *)
-Theorem nav_has_siblings : forall d t id par s,
-  Arena d t -> In (id, par, s) (table t) ->
+Theorem nav_has_siblings' : forall d t id par s,
+  Arena' d t -> In (id, par, s) (table t) ->
   has_siblings d id = Ok (negb (length (sibling_ids t id par) <=? 1)%nat).
 Proof.
   intros d t id par s HA Hin.
-  pose proof (nav_next_sibling _ _ _ _ _ HA Hin) as Hns.
+  pose proof (nav_next_sibling' _ _ _ _ _ HA Hin) as Hns.
   destruct (in_table_table'' _ _ _ _ Hin) as [pv Hin'].
   destruct (arena_get _ _ _ _ _ _ HA Hin') as (nd & Hg & _ & Hprev & _).
   unfold has_siblings, node_data_of. rewrite Hg. cbn [bind]. rewrite Hprev, Hns.
@@ -148,12 +148,12 @@ Proof.
   - apply table'_root in Hin'. destruct Hin' as (_ & -> & _).
     cbn [sibling_ids after]. rewrite N.eqb_refl. reflexivity.
 Qed.
-Print Assumptions nav_has_siblings.
+Print Assumptions nav_has_siblings'.
 
 (* ------------------------------------------------------------------ *)
 (* 2. the *_element variants *)
-Theorem nav_element_variants_exclude_self : forall d t id par s,
-  Arena d t -> In (id, par, s) (table t) ->
+Theorem nav_element_variants_exclude_self' : forall d t id par s,
+  Arena' d t -> In (id, par, s) (table t) ->
   ~ In id (ancestor_ids t par) /\
   ~ In id (before N.eqb id (sibling_ids t id par)) /\
   ~ In id (after N.eqb id (sibling_ids t id par)) /\
@@ -165,65 +165,65 @@ Proof.
   - intros Hi. apply (anc_chain_facts t _ _ _ _ _ Hin) in Hi. lia.
   - intros Hi. apply child_ids_In in Hi. lia.
 Qed.
-Print Assumptions nav_element_variants_exclude_self.
+Print Assumptions nav_element_variants_exclude_self'.
 
-Theorem nav_parent_element : forall d t id par s,
-  Arena d t -> In (id, par, s) (table t) ->
+Theorem nav_parent_element' : forall d t id par s,
+  Arena' d t -> In (id, par, s) (table t) ->
   parent_element d id = Ok (first_elem t (ancestor_ids t par)).
 Proof.
   intros d t id par s HA Hin. unfold parent_element.
-  rewrite (nav_ancestors _ _ _ _ _ HA Hin). cbn [bind tl].
+  rewrite (nav_ancestors' _ _ _ _ _ HA Hin). cbn [bind tl].
   apply find_element_spec; [exact HA|].
   intros i Hi. apply (anc_chain_facts t _ _ _ _ _ Hin Hi).
 Qed.
-Print Assumptions nav_parent_element.
+Print Assumptions nav_parent_element'.
 
-Theorem nav_prev_sibling_element : forall d t id par s,
-  Arena d t -> In (id, par, s) (table t) ->
+Theorem nav_prev_sibling_element' : forall d t id par s,
+  Arena' d t -> In (id, par, s) (table t) ->
   prev_sibling_element d id =
   Ok (first_elem t (rev (before N.eqb id (sibling_ids t id par)))).
 Proof.
   intros d t id par s HA Hin. unfold prev_sibling_element.
-  rewrite (nav_prev_siblings _ _ _ _ _ HA Hin). cbn [bind tl].
+  rewrite (nav_prev_siblings' _ _ _ _ _ HA Hin). cbn [bind tl].
   apply find_element_spec; [exact HA|].
   intros i Hi. apply in_rev in Hi.
   apply (proj1 (siblings_in_table d t id par s HA Hin)). exact Hi.
 Qed.
-Print Assumptions nav_prev_sibling_element.
+Print Assumptions nav_prev_sibling_element'.
 
-Theorem nav_next_sibling_element : forall d t id par s,
-  Arena d t -> In (id, par, s) (table t) ->
+Theorem nav_next_sibling_element' : forall d t id par s,
+  Arena' d t -> In (id, par, s) (table t) ->
   next_sibling_element d id = Ok (first_elem t (after N.eqb id (sibling_ids t id par))).
 Proof.
   intros d t id par s HA Hin. unfold next_sibling_element.
-  rewrite (nav_next_siblings _ _ _ _ _ HA Hin). cbn [bind tl].
+  rewrite (nav_next_siblings' _ _ _ _ _ HA Hin). cbn [bind tl].
   apply find_element_spec; [exact HA|].
   apply (proj1 (proj2 (siblings_in_table d t id par s HA Hin))).
 Qed.
-Print Assumptions nav_next_sibling_element.
+Print Assumptions nav_next_sibling_element'.
 
-Theorem nav_first_element_child : forall d t id par s,
-  Arena d t -> In (id, par, s) (table t) ->
+Theorem nav_first_element_child' : forall d t id par s,
+  Arena' d t -> In (id, par, s) (table t) ->
   first_element_child d id = Ok (first_elem t (child_ids (id + 1) (tchildren s))).
 Proof.
   intros d t id par s HA Hin. unfold first_element_child.
-  rewrite (nav_children _ _ _ _ _ HA Hin). cbn [bind].
+  rewrite (nav_children' _ _ _ _ _ HA Hin). cbn [bind].
   apply find_element_spec; [exact HA|].
   apply (children_in_table d t id par s HA Hin).
 Qed.
-Print Assumptions nav_first_element_child.
+Print Assumptions nav_first_element_child'.
 
-Theorem nav_last_element_child : forall d t id par s,
-  Arena d t -> In (id, par, s) (table t) ->
+Theorem nav_last_element_child' : forall d t id par s,
+  Arena' d t -> In (id, par, s) (table t) ->
   last_element_child d id = Ok (first_elem t (rev (child_ids (id + 1) (tchildren s)))).
 Proof.
   intros d t id par s HA Hin. unfold last_element_child.
-  rewrite (nav_children _ _ _ _ _ HA Hin). cbn [bind].
+  rewrite (nav_children' _ _ _ _ _ HA Hin). cbn [bind].
   apply find_element_spec; [exact HA|].
   intros i Hi. apply in_rev in Hi.
   apply (children_in_table d t id par s HA Hin). exact Hi.
 Qed.
-Print Assumptions nav_last_element_child.
+Print Assumptions nav_last_element_child'.
 
 (* ------------------------------------------------------------------ *)
 (* 3. root_element *)
@@ -233,27 +233,27 @@ Proof.
 Qed.
 
 Lemma root_first_element_child d t :
-  Arena d t -> first_element_child d 0 = Ok (first_elem t (child_ids 1 (tchildren t))).
+  Arena' d t -> first_element_child d 0 = Ok (first_elem t (child_ids 1 (tchildren t))).
 Proof.
-  intros HA. rewrite (nav_first_element_child d t 0 None t HA (table_root t)). reflexivity.
+  intros HA. rewrite (nav_first_element_child' d t 0 None t HA (table_root t)). reflexivity.
 Qed.
 
-Theorem nav_root_element : forall d t i,
-  Arena d t -> first_elem t (child_ids 1 (tchildren t)) = Some i -> root_element d = Ok i.
+Theorem nav_root_element' : forall d t i,
+  Arena' d t -> first_elem t (child_ids 1 (tchildren t)) = Some i -> root_element d = Ok i.
 Proof.
   intros d t i HA Hi. unfold root_element.
   rewrite (root_first_element_child d t HA), Hi. reflexivity.
 Qed.
-Print Assumptions nav_root_element.
+Print Assumptions nav_root_element'.
 
-Theorem nav_root_element_none : forall d t,
-  Arena d t -> first_elem t (child_ids 1 (tchildren t)) = None ->
+Theorem nav_root_element_none' : forall d t,
+  Arena' d t -> first_elem t (child_ids 1 (tchildren t)) = None ->
   root_element d = Panic P_unwrap.
 Proof.
   intros d t HA Hi. unfold root_element.
   rewrite (root_first_element_child d t HA), Hi. reflexivity.
 Qed.
-Print Assumptions nav_root_element_none.
+Print Assumptions nav_root_element_none'.
 
 (* ------------------------------------------------------------------ *)
 (* 4. text / tail *)
@@ -267,8 +267,8 @@ Definition text_of_node (d : document) (o : option N) : option storage :=
   | None => None
   end.
 
-Theorem nav_text_storage : forall d t id par s nd,
-  Arena d t -> In (id, par, s) (table t) -> node_data_of d id = Ok nd ->
+Theorem nav_text_storage' : forall d t id par s nd,
+  Arena' d t -> In (id, par, s) (table t) -> node_data_of d id = Ok nd ->
   text_storage d id =
   Ok (match nd_kind nd with
       | KElement _ _ _ _ =>
@@ -288,7 +288,7 @@ Proof.
   intros d t id par s nd HA Hin Hnd.
   unfold text_storage. rewrite Hnd. cbn [bind].
   destruct (nd_kind nd); try reflexivity.
-  rewrite (nav_first_child _ _ _ _ _ HA Hin). cbn [bind].
+  rewrite (nav_first_child' _ _ _ _ _ HA Hin). cbn [bind].
   destruct (hd_error (child_ids (id + 1) (tchildren s))) as [c|] eqn:Ec; [|reflexivity].
   assert (Hc : In c (child_ids (id + 1) (tchildren s))).
   { destruct (child_ids (id + 1) (tchildren s)); [discriminate|].
@@ -297,6 +297,137 @@ Proof.
   destruct (table_get _ _ _ _ _ HA Hrow) as [cnd Hg].
   unfold node_data_of. rewrite Hg. cbn [bind].
   destruct (nd_kind cnd); reflexivity.
+Qed.
+Print Assumptions nav_text_storage'.
+
+Theorem nav_tail_storage' : forall d t id par s nd,
+  Arena' d t -> In (id, par, s) (table t) -> node_data_of d id = Ok nd ->
+  tail_storage d id =
+  Ok (match nd_kind nd with
+      | KElement _ _ _ _ =>
+        match hd_error (after N.eqb id (sibling_ids t id par)) with
+        | Some c =>
+          match get_node d c with
+          | Some cnd => match nd_kind cnd with KText st => Some st | _ => None end
+          | None => None
+          end
+        | None => None
+        end
+      | _ => None
+      end).
+Proof.
+  intros d t id par s nd HA Hin Hnd.
+  unfold tail_storage. rewrite Hnd. cbn [bind].
+  destruct (nd_kind nd); try reflexivity.
+  cbn [is_element_kind negb].
+  rewrite (nav_next_sibling' _ _ _ _ _ HA Hin). cbn [bind].
+  destruct (hd_error (after N.eqb id (sibling_ids t id par))) as [c|] eqn:Ec; [|reflexivity].
+  assert (Hc : In c (after N.eqb id (sibling_ids t id par))).
+  { destruct (after N.eqb id (sibling_ids t id par)); [discriminate|].
+    injection Ec as ->. left. reflexivity. }
+  destruct (proj1 (proj2 (siblings_in_table d t id par s HA Hin)) c Hc) as (pc & sc & Hrow).
+  destruct (table_get _ _ _ _ _ HA Hrow) as [cnd Hg].
+  unfold node_data_of. rewrite Hg. cbn [bind].
+  destruct (nd_kind cnd); reflexivity.
+Qed.
+Print Assumptions nav_tail_storage'.
+
+(* ------------------------------------------------------------------ *)
+(* the theorems for [Arena] (strict bound) *)
+Theorem nav_has_siblings : forall d t id par s,
+  Arena d t -> In (id, par, s) (table t) ->
+  has_siblings d id = Ok (negb (length (sibling_ids t id par) <=? 1)%nat).
+Proof.
+  intros *. intros HA. generalize (Arena_weaken _ _ HA). clear HA. apply nav_has_siblings'.
+Qed.
+Print Assumptions nav_has_siblings.
+
+Theorem nav_element_variants_exclude_self : forall d t id par s,
+  Arena d t -> In (id, par, s) (table t) ->
+  ~ In id (ancestor_ids t par) /\
+  ~ In id (before N.eqb id (sibling_ids t id par)) /\
+  ~ In id (after N.eqb id (sibling_ids t id par)) /\
+  ~ In id (child_ids (id + 1) (tchildren s)).
+Proof.
+  intros *. intros HA. generalize (Arena_weaken _ _ HA). clear HA. apply nav_element_variants_exclude_self'.
+Qed.
+Print Assumptions nav_element_variants_exclude_self.
+
+Theorem nav_parent_element : forall d t id par s,
+  Arena d t -> In (id, par, s) (table t) ->
+  parent_element d id = Ok (first_elem t (ancestor_ids t par)).
+Proof.
+  intros *. intros HA. generalize (Arena_weaken _ _ HA). clear HA. apply nav_parent_element'.
+Qed.
+Print Assumptions nav_parent_element.
+
+Theorem nav_prev_sibling_element : forall d t id par s,
+  Arena d t -> In (id, par, s) (table t) ->
+  prev_sibling_element d id =
+  Ok (first_elem t (rev (before N.eqb id (sibling_ids t id par)))).
+Proof.
+  intros *. intros HA. generalize (Arena_weaken _ _ HA). clear HA. apply nav_prev_sibling_element'.
+Qed.
+Print Assumptions nav_prev_sibling_element.
+
+Theorem nav_next_sibling_element : forall d t id par s,
+  Arena d t -> In (id, par, s) (table t) ->
+  next_sibling_element d id = Ok (first_elem t (after N.eqb id (sibling_ids t id par))).
+Proof.
+  intros *. intros HA. generalize (Arena_weaken _ _ HA). clear HA. apply nav_next_sibling_element'.
+Qed.
+Print Assumptions nav_next_sibling_element.
+
+Theorem nav_first_element_child : forall d t id par s,
+  Arena d t -> In (id, par, s) (table t) ->
+  first_element_child d id = Ok (first_elem t (child_ids (id + 1) (tchildren s))).
+Proof.
+  intros *. intros HA. generalize (Arena_weaken _ _ HA). clear HA. apply nav_first_element_child'.
+Qed.
+Print Assumptions nav_first_element_child.
+
+Theorem nav_last_element_child : forall d t id par s,
+  Arena d t -> In (id, par, s) (table t) ->
+  last_element_child d id = Ok (first_elem t (rev (child_ids (id + 1) (tchildren s)))).
+Proof.
+  intros *. intros HA. generalize (Arena_weaken _ _ HA). clear HA. apply nav_last_element_child'.
+Qed.
+Print Assumptions nav_last_element_child.
+
+Theorem nav_root_element : forall d t i,
+  Arena d t -> first_elem t (child_ids 1 (tchildren t)) = Some i -> root_element d = Ok i.
+Proof.
+  intros *. intros HA. generalize (Arena_weaken _ _ HA). clear HA. apply nav_root_element'.
+Qed.
+Print Assumptions nav_root_element.
+
+Theorem nav_root_element_none : forall d t,
+  Arena d t -> first_elem t (child_ids 1 (tchildren t)) = None ->
+  root_element d = Panic P_unwrap.
+Proof.
+  intros *. intros HA. generalize (Arena_weaken _ _ HA). clear HA. apply nav_root_element_none'.
+Qed.
+Print Assumptions nav_root_element_none.
+
+Theorem nav_text_storage : forall d t id par s nd,
+  Arena d t -> In (id, par, s) (table t) -> node_data_of d id = Ok nd ->
+  text_storage d id =
+  Ok (match nd_kind nd with
+      | KElement _ _ _ _ =>
+        match hd_error (child_ids (id + 1) (tchildren s)) with
+        | Some c =>
+          match get_node d c with
+          | Some cnd => match nd_kind cnd with KText st => Some st | _ => None end
+          | None => None
+          end
+        | None => None
+        end
+      | KComment sl => Some (Borrowed (SIn sl))
+      | KText st => Some st
+      | _ => None
+      end).
+Proof.
+  intros *. intros HA. generalize (Arena_weaken _ _ HA). clear HA. apply nav_text_storage'.
 Qed.
 Print Assumptions nav_text_storage.
 
@@ -316,18 +447,7 @@ Theorem nav_tail_storage : forall d t id par s nd,
       | _ => None
       end).
 Proof.
-  intros d t id par s nd HA Hin Hnd.
-  unfold tail_storage. rewrite Hnd. cbn [bind].
-  destruct (nd_kind nd); try reflexivity.
-  cbn [is_element_kind negb].
-  rewrite (nav_next_sibling _ _ _ _ _ HA Hin). cbn [bind].
-  destruct (hd_error (after N.eqb id (sibling_ids t id par))) as [c|] eqn:Ec; [|reflexivity].
-  assert (Hc : In c (after N.eqb id (sibling_ids t id par))).
-  { destruct (after N.eqb id (sibling_ids t id par)); [discriminate|].
-    injection Ec as ->. left. reflexivity. }
-  destruct (proj1 (proj2 (siblings_in_table d t id par s HA Hin)) c Hc) as (pc & sc & Hrow).
-  destruct (table_get _ _ _ _ _ HA Hrow) as [cnd Hg].
-  unfold node_data_of. rewrite Hg. cbn [bind].
-  destruct (nd_kind cnd); reflexivity.
+  intros *. intros HA. generalize (Arena_weaken _ _ HA). clear HA. apply nav_tail_storage'.
 Qed.
 Print Assumptions nav_tail_storage.
+
